@@ -31,6 +31,10 @@ P = {
   "(i) every literal quadrature table of the real code integrates every polynomial of the rule's degree (symbolic coefficients, LRA) with positive weights and interior points; (ii) the real Jacobian routines, executed symbolically in the quadrature point, equal the area element |det[F,Fa,Fb]|/|F|^3 of the radial projection on 4 rational triangles (polynomial identity, z3 nlsat); (iii) the real calculate_face_area is exactly the weight x Jacobian sum over the fan triangles (0,j+1,j+2), each once, from lon/lat or xyz, and is >= 0; (iv) the real Grid.compute_face_areas hands each face its own corners in order, unpadded, in the requested coordinate system with the requested rule/order, total area is their sum; (v) face_areas is the default-rule result regardless of earlier computations.",
   "Outside the claim (transcendental, no SMT theory here bounds it): agreement with the exact spherical excess, the 1e-2/1e-4/1e-6 accuracy ladder, convergence, rotation/start-corner/coordinate invariance of the value, additivity under subdivision; the Jacobian identity for symbolic node vectors (nlsat unknown after 300 s with 3 symbolic components). Bounds: rules gaussian 1..10 / triangular 1,4,8,10,12; faces of 3..8 corners; 2 faces <= 4 corners for the gather. Trusted: shim, z3 (LRA, nlsat).",
   "DESIGN.md §2 C05"),
+ "C17": (True,
+  "The real aggregation code (partitioning by face size, fancy gather, scatter of the per-partition results) runs on a symbolic face-node table and symbolic data; the ten numpy reductions are replaced by a recorder H_k(operand row). z3 shows that, for every node numbering, the operand handed to the reduction for face f (edge e) is exactly that element's own corner values, in order, with no padding, that the result lands at position f, for every leading index and every reduction; dims/grid/name of the result; unsupported source/destination combinations raise.",
+  "Bounds: 3 faces with every size layout in {3,4,5}^3 (10 layouts quick, all 27 thorough), 4-5 face layouts with size gaps (3,5,3,5), (4,3,3,5), (6,3,3,6), node ids < 6-7, leading dims up to (2,2), edges with symbolic end nodes. n_nodes_per_face is supplied to the grid (its derivation is C02's subject). numpy's reductions themselves are trusted. Abstracted obligation: sat models are candidates judged by a concrete replay with all ten real reductions.",
+  "DESIGN.md §2 C17"),
 }
 NA = {
  "C10": "Quantifies over arbitrary compositions of xarray's own operations; whether the grid survives is decided inside xarray/numpy C-level dispatch which symbolic values cannot cross, and there is no bounded uxarray kernel to encode (DESIGN.md §4).",
